@@ -1,7 +1,7 @@
 (* Proofs/Z3TrProofs.v -- the z3 term built for each EVM operation denotes the EVM's result
    (for all 256-bit operands); the stack-based traversal equals structural recursion on trees;
    soundness of the translation under concrete interpretations. *)
-From Coq Require Import Lia ZifyBool ZifyNat ZifyN.
+From Coq Require Import Lia ZifyBool ZifyNat ZifyN Zpow_facts.
 From Verif Require Import Model.Base Model.Sym Model.SymTree Spec.EvmSem Spec.SmtBv Spec.SymEval Model.Z3Tr Proofs.SymProofs.
 Open Scope Z_scope.
 
@@ -166,15 +166,6 @@ Proof.
   pose proof (Z.mod_pos_bound (b * a) n ltac:(unfold word in *; lia)).
   rewrite Z.mod_small by (unfold word in *; lia).
   rewrite (Z.mul_comm b a). reflexivity.
-Qed.
-
-(* --- exp: z3 leaves 0^0 unspecified, the EVM says 1 --- *)
-Lemma exp_ok : forall p a b, (a = 0 -> b = 0 -> p = 1) ->
-  int_pow p a b mod 2 ^ 256 = evm_exp a b.
-Proof.
-  intros p a b Hp. unfold int_pow, evm_exp, wrap, W.
-  destruct (Z.eqb_spec a 0) as [Ea|Ea]; destruct (Z.eqb_spec b 0) as [Eb|Eb]; cbn [andb]; try reflexivity.
-  rewrite (Hp Ea Eb), Ea, Eb. reflexivity.
 Qed.
 
 (* --- comparisons --- *)
@@ -440,7 +431,6 @@ Proof.
     destruct IHa as [Wa Ra]; [assumption|]. destruct IHb as [Wb Rb]; [assumption|].
     assert (E : width a = width b) by lia.
     split; [assumption|]. destruct (form_eval M c); [assumption|rewrite E; assumption].
-  - (* BIntPow *) intros a _ b _ _. cbn [width bv_eval]. split; [lia|]. apply mod_inw. lia.
 Qed.
 
 (* a well-sorted 256-bit term *)
@@ -453,7 +443,7 @@ Proof. intros M t [Hw Ew]. destruct (wf_range M t Hw) as [_ R]. rewrite Ew in R.
 (* 3. per-operation correctness: the term built by Z3Visit::exit denotes the EVM's result   *)
 (* ====================================================================================== *)
 Ltac ev :=
-  unfold t_add, t_sub, t_mul, t_div, t_sdiv, t_mod, t_smod, t_exp, t_lt, t_gt, t_slt, t_sgt, t_eq,
+  unfold t_add, t_sub, t_mul, t_div, t_sdiv, t_mod, t_smod, t_lt, t_gt, t_slt, t_sgt, t_eq,
     t_and, t_or, t_xor, t_shl, t_shr, t_sar, t_not, t_iszero, t_signextend, t_byte, t_addmod,
     t_mulmod, guard0, ite01, c256;
   cbn [bv_eval form_eval cmp_sem bin_sem width];
@@ -524,15 +514,6 @@ Proof.
   intros M ta tb tc Ha Hb Hc. pose proof (bv256_word M ta Ha). pose proof (bv256_word M tb Hb).
   pose proof (bv256_word M tc Hc).
   ev. apply mulmod_ok; assumption.
-Qed.
-
-(* z3 leaves 0^0 unspecified: the interpretation must choose the EVM's 1 *)
-Lemma tr_exp_correct : forall M ta tb, bv256 ta -> bv256 tb ->
-  (bv_eval M ta = 0 -> bv_eval M tb = 0 -> i_pow00 M = 1) ->
-  bv_eval M (t_exp ta tb) = evm_exp (bv_eval M ta) (bv_eval M tb).
-Proof.
-  intros M ta tb Ha Hb. pose proof (bv256_word M ta Ha). pose proof (bv256_word M tb Hb).
-  intros Hp. ev. apply exp_ok. exact Hp.
 Qed.
 
 Lemma tr_lt_correct : forall M ta tb, bv256 ta -> bv256 tb ->
@@ -647,37 +628,125 @@ Proof.
 Qed.
 
 (* --- constants --- *)
-Lemma make_const_correct : forall M v, 0 <= v < 2 ^ 256 ->
-  bv256 (make_const v) /\ bv_eval M (make_const v) = v.
+Lemma const_chunks_value : forall v, 0 <= v < 2 ^ 256 ->
+  ((const_chunk v 3 * 2 ^ 64 + const_chunk v 2) * 2 ^ 64 + const_chunk v 1) * 2 ^ 64 + const_chunk v 0 = v.
 Proof.
-  intros M v Hv. unfold make_const, bv256. cbn [wf_term width bv_eval].
+  intros v Hv. unfold const_chunk.
   change (64 * 3) with 192. change (64 * 2) with 128. change (64 * 1) with 64. change (64 * 0) with 0.
   change (2 ^ 0) with 1. rewrite Z.div_1_r.
   assert (P : 0 < 2 ^ 64) by reflexivity.
   assert (NZ : 2 ^ 64 <> 0) by (clear; lia).
-  pose proof (Z.mod_pos_bound (v / 2 ^ 192) (2 ^ 64) P) as [L3 U3].
-  pose proof (Z.mod_pos_bound (v / 2 ^ 128) (2 ^ 64) P) as [L2 U2].
-  pose proof (Z.mod_pos_bound (v / 2 ^ 64) (2 ^ 64) P) as [L1 U1].
-  pose proof (Z.mod_pos_bound v (2 ^ 64) P) as [L0 U0].
-  split.
-  - split; [|reflexivity].
-    repeat (apply andb_true_intro; split);
-      first [reflexivity | apply Z.leb_le; assumption | apply Z.ltb_lt; assumption].
-  - clear L3 U3 L2 U2 L1 U1 L0 U0.
-    rewrite !Z.mod_mod by exact NZ.
-    change (2 ^ 192) with (2 ^ 64 * 2 ^ 64 * 2 ^ 64) in *. change (2 ^ 128) with (2 ^ 64 * 2 ^ 64) in *.
-    rewrite <- !Z.div_div by (clear; lia).
-    assert (Hs : 0 <= v / 2 ^ 64 / 2 ^ 64 / 2 ^ 64 < 2 ^ 64).
-    { split; [repeat apply Z.div_pos; solve [exact P | exact (proj1 Hv)]|].
-      repeat (apply Z.div_lt_upper_bound; [exact P|]). exact (proj2 Hv). }
-    rewrite (Z.mod_small (v / 2 ^ 64 / 2 ^ 64 / 2 ^ 64)) by exact Hs.
-    pose proof (Z.div_mod v (2 ^ 64) NZ) as E0.
-    pose proof (Z.div_mod (v / 2 ^ 64) (2 ^ 64) NZ) as E1.
-    pose proof (Z.div_mod (v / 2 ^ 64 / 2 ^ 64) (2 ^ 64) NZ) as E2.
-    clear - E0 E1 E2.
-    set (d1 := v / 2 ^ 64) in *. set (d2 := d1 / 2 ^ 64) in *. set (d3 := d2 / 2 ^ 64) in *.
-    set (r0 := v mod 2 ^ 64) in *. set (r1 := d1 mod 2 ^ 64) in *. set (r2 := d2 mod 2 ^ 64) in *.
-    clearbody d1 d2 d3 r0 r1 r2. lia.
+  change (2 ^ 192) with (2 ^ 64 * 2 ^ 64 * 2 ^ 64) in *. change (2 ^ 128) with (2 ^ 64 * 2 ^ 64) in *.
+  rewrite <- !Z.div_div by (clear; lia).
+  assert (Hs : 0 <= v / 2 ^ 64 / 2 ^ 64 / 2 ^ 64 < 2 ^ 64).
+  { split; [repeat apply Z.div_pos; solve [exact P | exact (proj1 Hv)]|].
+    repeat (apply Z.div_lt_upper_bound; [exact P|]). exact (proj2 Hv). }
+  rewrite (Z.mod_small (v / 2 ^ 64 / 2 ^ 64 / 2 ^ 64)) by exact Hs.
+  pose proof (Z.div_mod v (2 ^ 64) NZ) as E0.
+  pose proof (Z.div_mod (v / 2 ^ 64) (2 ^ 64) NZ) as E1.
+  pose proof (Z.div_mod (v / 2 ^ 64 / 2 ^ 64) (2 ^ 64) NZ) as E2.
+  clear - E0 E1 E2.
+  set (d1 := v / 2 ^ 64) in *. set (d2 := d1 / 2 ^ 64) in *. set (d3 := d2 / 2 ^ 64) in *.
+  set (r0 := v mod 2 ^ 64) in *. set (r1 := d1 mod 2 ^ 64) in *. set (r2 := d2 mod 2 ^ 64) in *.
+  clearbody d1 d2 d3 r0 r1 r2. lia.
+Qed.
+
+(* the literal that make_const builds is the constant itself *)
+Lemma make_const_val : forall v, 0 <= v < 2 ^ 256 -> make_const v = BVal v 256.
+Proof. intros v Hv. unfold make_const. rewrite (const_chunks_value v Hv). reflexivity. Qed.
+
+Lemma make_const_correct : forall M v, 0 <= v < 2 ^ 256 ->
+  bv256 (make_const v) /\ bv_eval M (make_const v) = v.
+Proof.
+  intros M v Hv. rewrite (make_const_val v Hv). unfold bv256. cbn [wf_term width bv_eval].
+  split; [split; [|reflexivity]|apply Z.mod_small; exact Hv].
+  repeat (apply andb_true_intro; split); first [reflexivity | apply Z.leb_le; lia | apply Z.ltb_lt; lia].
+Qed.
+
+(* --- exp with a literal exponent: square-and-multiply is exact --- *)
+Lemma as_u64_spec : forall M t e, bv256 t -> as_u64 t = Some e ->
+  0 <= e < 2 ^ 64 /\ bv_eval M t = e.
+Proof.
+  intros M t e [Hwf Hw] H. destruct t; try discriminate H.
+  cbn [as_u64 width bv_eval] in *. subst w. cbv zeta in H.
+  destruct (Z.ltb_spec (v mod 2 ^ 256) (2 ^ 64)) as [L|L]; [|discriminate H].
+  injection H as <-. split; [|reflexivity].
+  pose proof (Z.mod_pos_bound v (2 ^ 256) W_pos). lia.
+Qed.
+
+Lemma bv256_mul : forall r b, bv256 r -> bv256 b -> bv256 (BBin Bmul r b).
+Proof.
+  intros r b [Wr Er] [Wb Eb]. unfold bv256. cbn [wf_term width]. rewrite Wr, Wb, Er, Eb. split; reflexivity.
+Qed.
+
+Lemma exp_loop_bv256 : forall fuel e r b, bv256 r -> bv256 b -> bv256 (exp_loop fuel e r b).
+Proof.
+  induction fuel as [|f IH]; intros e r b Hr Hb; cbn [exp_loop]; [exact Hr|].
+  destruct (0 <? e); [|exact Hr].
+  apply IH; [destruct (Z.odd e); [apply bv256_mul|]; assumption|apply bv256_mul; assumption].
+Qed.
+
+Lemma pow_mod_l : forall x k n, 0 < n -> ((x mod n) ^ k) mod n = (x ^ k) mod n.
+Proof. intros x k n Hn. symmetry. apply Zpower_mod. exact Hn. Qed.
+
+Lemma exp_loop_correct : forall M fuel e r b,
+  0 <= e < 2 ^ Z.of_nat fuel -> bv256 r -> bv256 b ->
+  bv_eval M (exp_loop fuel e r b) = (bv_eval M r * bv_eval M b ^ e) mod 2 ^ 256.
+Proof.
+  intros M. induction fuel as [|f IH]; intros e r b He Hr Hb.
+  - change (2 ^ Z.of_nat 0) with 1 in He. assert (e = 0) by lia. subst e.
+    cbn [exp_loop]. rewrite Z.pow_0_r, Z.mul_1_r. symmetry. apply Z.mod_small. apply (bv256_word M r Hr).
+  - cbn [exp_loop]. destruct (Z.ltb_spec 0 e) as [Pos|NPos].
+    + rewrite Nat2Z.inj_succ, Z.pow_succ_r in He by lia.
+      pose proof (Z.div2_odd e) as Ho. rewrite Z.div2_div in Ho.
+      assert (Hh : 0 <= e / 2 < 2 ^ Z.of_nat f) by (clear Ho; lia).
+      rewrite IH; [|exact Hh|destruct (Z.odd e); [apply bv256_mul|]; assumption|apply bv256_mul; assumption].
+      destruct Hb as [Wb Eb]. cbn [bv_eval bin_sem]. rewrite Eb.
+      set (vb := bv_eval M b). set (h := e / 2) in *.
+      rewrite <- Z.mul_mod_idemp_r by lia. rewrite pow_mod_l by exact W_pos.
+      rewrite Z.mul_mod_idemp_r by lia.
+      assert (Hsq : (vb * vb) ^ h = vb ^ (2 * h)).
+      { rewrite Z.pow_mul_r by lia. rewrite Z.pow_2_r. reflexivity. }
+      rewrite Hsq.
+      destruct (Z.odd e); cbn [Z.b2z] in Ho.
+      * destruct Hr as [Wr Er]. cbn [bv_eval bin_sem]. rewrite Er.
+        rewrite Z.mul_mod_idemp_l by lia.
+        rewrite Ho. rewrite Z.pow_add_r by lia. rewrite Z.pow_1_r.
+        f_equal. unfold vb. ring.
+      * rewrite Ho. rewrite Z.add_0_r. reflexivity.
+    + assert (e = 0) by lia. subst e.
+      rewrite Z.pow_0_r, Z.mul_1_r. symmetry. apply Z.mod_small. apply (bv256_word M r Hr).
+Qed.
+
+(* for EVERY base and EVERY literal exponent below 2^64 (0^0 = 1 included) *)
+Lemma tr_exp_lit_correct : forall M ta e, bv256 ta -> 0 <= e < 2 ^ 64 ->
+  bv256 (t_exp_lit ta e) /\ bv_eval M (t_exp_lit ta e) = evm_exp (bv_eval M ta) e.
+Proof.
+  intros M ta e Ha He. assert (H1 : bv256 (c256 1)) by (split; reflexivity). unfold t_exp_lit. split.
+  - apply exp_loop_bv256; assumption.
+  - rewrite exp_loop_correct; [|exact He|exact H1|exact Ha].
+    change (bv_eval M (c256 1)) with 1. rewrite Z.mul_1_l. reflexivity.
+Qed.
+
+(* when is the translation of an Exp a literal again: only for the exponent 0 *)
+Lemma exp_loop_zero : forall fuel r b, exp_loop fuel 0 r b = r.
+Proof. intros [|f] r b; reflexivity. Qed.
+Lemma exp_loop_not_lit_r : forall fuel e r b, as_u64 r = None -> as_u64 (exp_loop fuel e r b) = None.
+Proof.
+  induction fuel as [|f IH]; intros e r b Hr; cbn [exp_loop]; [exact Hr|].
+  destruct (0 <? e); [|exact Hr]. apply IH. destruct (Z.odd e); [reflexivity|exact Hr].
+Qed.
+Lemma exp_loop_not_lit : forall fuel e r b, 0 < e < 2 ^ Z.of_nat fuel ->
+  as_u64 (exp_loop fuel e r b) = None.
+Proof.
+  induction fuel as [|f IH]; intros e r b He.
+  - change (2 ^ Z.of_nat 0) with 1 in He. lia.
+  - cbn [exp_loop]. destruct (Z.ltb_spec 0 e) as [_|N]; [|lia].
+    rewrite Nat2Z.inj_succ, Z.pow_succ_r in He by lia.
+    pose proof (Z.div2_odd e) as Ho. rewrite Z.div2_div in Ho.
+    destruct (Z.odd e); cbn [Z.b2z] in Ho.
+    + apply exp_loop_not_lit_r. reflexivity.
+    + apply IH. clear IH. lia.
 Qed.
 
 (* --- every node built by Z3Visit::exit is a well-sorted 256-bit term --- *)
@@ -689,7 +758,7 @@ Ltac explode_args args Hlen :=
   cbn [children] in Hlen;
   destruct args as [|?x [|?y [|?z [|?u args]]]]; cbn [length] in Hlen; try discriminate Hlen.
 Ltac bv256_node :=
-  unfold t_add, t_sub, t_mul, t_div, t_sdiv, t_mod, t_smod, t_exp, t_lt, t_gt, t_slt, t_sgt, t_eq,
+  unfold t_add, t_sub, t_mul, t_div, t_sdiv, t_mod, t_smod, t_lt, t_gt, t_slt, t_sgt, t_eq,
     t_and, t_or, t_xor, t_shl, t_shr, t_sar, t_not, t_iszero, t_signextend, t_byte, t_addmod,
     t_mulmod, t_calldataload, t_blockhash, guard0, ite01, c256;
   repeat match goal with H : bv256 _ |- _ => destruct H as [? ?] end;
@@ -699,7 +768,7 @@ Ltac bv256_node :=
          | H : width _ = 256 |- _ => rewrite ?H; clear H
          end; reflexivity.
 
-Definition dummy_interp : interp := mkInterp (fun _ => 0) (fun _ => 0) (fun _ _ => 0) 0.
+Definition dummy_interp : interp := mkInterp (fun _ => 0) (fun _ => 0) (fun _ _ => 0).
 
 Lemma tr_node_bv256 : forall s args n,
   wf_sym s = true -> length args = children s -> Forall bv256 args ->
@@ -709,6 +778,9 @@ Proof.
   destruct s; cbn [tr_node fst]; try solve [split; reflexivity];
     try solve [explode_args args Hlen; inv_forall; cbn [nth]; bv256_node].
   - (* SConst *) cbn [wf_sym] in Hs. apply (make_const_correct dummy_interp). lia.
+  - (* SExp *) explode_args args Hlen; inv_forall; cbn [nth].
+    destruct (as_u64 y); cbn [fst]; [|split; reflexivity].
+    apply exp_loop_bv256; [split; reflexivity|assumption].
   - (* SGetPc *) cbn [wf_sym] in Hs. unfold c256, bv256. cbn [wf_term width].
     split; [|reflexivity]. assert (65535 < 2 ^ 256) by reflexivity. lia.
 Qed.
@@ -716,11 +788,10 @@ Qed.
 (* --- (a) bundled: for every pure symbol the node denotes the EVM's result --- *)
 Theorem tr_op_correct : forall M s args n,
   pure_sym s = true -> length args = children s -> Forall bv256 args ->
-  (s = SExp -> i_pow00 M = 1) ->
   snd (tr_node s args n) = n /\
   bv_eval M (fst (tr_node s args n)) = evm_pure s (map (bv_eval M) args).
 Proof.
-  intros M s args n Hp Hlen Hargs Hpow.
+  intros M s args n Hp Hlen Hargs.
   destruct s; try discriminate Hp; explode_args args Hlen; inv_forall;
     cbn [tr_node fst snd nth map evm_pure]; (split; [reflexivity|]).
   - apply tr_add_correct; assumption.
@@ -732,7 +803,6 @@ Proof.
   - apply tr_smod_correct; assumption.
   - apply tr_addmod_correct; assumption.
   - apply tr_mulmod_correct; assumption.
-  - apply tr_exp_correct; try assumption. intros _ _. apply Hpow. reflexivity.
   - apply tr_lt_correct; assumption.
   - apply tr_gt_correct; assumption.
   - apply tr_slt_correct; assumption.
@@ -750,10 +820,21 @@ Proof.
   - apply tr_not_correct; assumption.
 Qed.
 
-(* the hypothesis on 0^0 cannot be dropped: z3 may pick any value *)
-Lemma tr_exp_needs_pow00 : exists M,
-  bv_eval M (fst (tr_node SExp [c256 0; c256 0] 0)) <> evm_pure SExp [0; 0].
-Proof. exists dummy_interp. vm_compute. discriminate. Qed.
+(* --- Exp: exact for a literal exponent below 2^64, otherwise a fresh constant --- *)
+Theorem tr_exp_node : forall M ta tb n, bv256 ta -> bv256 tb ->
+  (forall e, as_u64 tb = Some e ->
+     0 <= e < 2 ^ 64 /\ bv_eval M tb = e /\
+     snd (tr_node SExp [ta; tb] n) = n /\
+     bv_eval M (fst (tr_node SExp [ta; tb] n)) = evm_exp (bv_eval M ta) (bv_eval M tb)) /\
+  (as_u64 tb = None -> tr_node SExp [ta; tb] n = (BFresh "exp" n, S n)).
+Proof.
+  intros M ta tb n Ha Hb. cbn [tr_node nth]. split.
+  - intros e He. rewrite He. cbn [fst snd].
+    destruct (as_u64_spec M tb e Hb He) as [R V]. rewrite V.
+    split; [exact R|]. split; [reflexivity|]. split; [reflexivity|].
+    apply tr_exp_lit_correct; assumption.
+  - intros He. rewrite He. reflexivity.
+Qed.
 
 (* ====================================================================================== *)
 (* 4. (b) the stack-based traversal of the prefix encoding = structural recursion           *)
@@ -796,7 +877,12 @@ Lemma tr_exit_node : forall s targs a n, length targs = children s ->
   tr_exit s (rev targs ++ a, n) = Ok (fst (tr_node s targs n) :: a, snd (tr_node s targs n)).
 Proof.
   intros s targs a n Hlen.
-  destruct s; explode_all targs Hlen; reflexivity.
+  destruct s; explode_all targs Hlen;
+    try (match goal with
+         | |- tr_exit SExp _ = _ =>
+             cbn [rev app tr_exit pop bind tr_node nth]; destruct (as_u64 _); cbn [fst snd]; reflexivity
+         end);
+    reflexivity.
 Qed.
 
 Theorem tr_walk_gen : forall t, arity_tree t = true ->
@@ -850,7 +936,8 @@ Qed.
 (*    term denotes the value of the expression in that execution                            *)
 (* ====================================================================================== *)
 Lemma eval_tree_node : forall E s args n,
-  eval_tree E (SNode s args) n = let '(vs, n') := eval_trees E args n in eval_node E s vs n'.
+  eval_tree E (SNode s args) n =
+  let '(vs, n') := eval_trees E args n in eval_node E s (exp_is_literal args) vs n'.
 Proof. reflexivity. Qed.
 Lemma eval_trees_cons : forall E x xs n,
   eval_trees E (x :: xs) n =
@@ -860,14 +947,87 @@ Proof. reflexivity. Qed.
 Lemma wrap_word : forall v, 0 <= v < 2 ^ 256 -> wrap v = v.
 Proof. intros v Hv. unfold wrap, W. apply Z.mod_small. exact Hv. Qed.
 
-Lemma node_sound : forall M E s targs n,
-  agrees M E -> wf_sym s = true -> length targs = children s -> Forall bv256 targs ->
-  bv_eval M (fst (tr_node s targs n)) = fst (eval_node E s (map (bv_eval M) targs) n) /\
-  snd (tr_node s targs n) = snd (eval_node E s (map (bv_eval M) targs) n).
+(* every translated tree is a well-sorted 256-bit term *)
+Lemma tr_trees_bv256 : forall args,
+  Forall (fun t => wf_tree t = true -> forall n, bv256 (fst (tr_tree t n))) args ->
+  forallb wf_tree args = true -> forall n, Forall bv256 (fst (tr_trees args n)).
 Proof.
-  intros M E s targs n (Av & Ae & Af & Ac & Ab & Ap) Hs Hlen Hargs.
+  induction args as [|x xs IHxs]; intros IH Hall n; [constructor|].
+  inversion IH as [|? ? Hx Hxs]; subst.
+  cbn [forallb] in Hall. apply andb_prop in Hall. destruct Hall as [Wx Wxs].
+  rewrite tr_trees_cons. pose proof (Hx Wx n) as B1.
+  destruct (tr_tree x n) as [tx n1]. pose proof (IHxs Hxs Wxs n1) as B2.
+  destruct (tr_trees xs n1) as [tr n2]. cbn [fst] in *. constructor; assumption.
+Qed.
+
+Theorem tr_tree_bv256 : forall t, wf_tree t = true -> forall n, bv256 (fst (tr_tree t n)).
+Proof.
+  induction t as [s args IH] using stree_ind'.
+  intros Hwf n. cbn [wf_tree] in Hwf. apply andb_prop in Hwf. destruct Hwf as [Hwf Hall].
+  apply andb_prop in Hwf. destruct Hwf as [Hs Hn]. apply Nat.eqb_eq in Hn.
+  rewrite tr_tree_node. pose proof (tr_trees_bv256 args IH Hall n) as B.
+  pose proof (tr_trees_length args n) as Hl.
+  destruct (tr_trees args n) as [targs n']. cbn [fst] in *.
+  apply tr_node_bv256; [assumption|lia|assumption].
+Qed.
+
+(* the numerals among the translated trees are those that Spec/SymEval.v calls literals *)
+Theorem tr_tree_lit64 : forall t, wf_tree t = true -> forall n,
+  as_u64 (fst (tr_tree t n)) = lit64 t.
+Proof.
+  induction t as [s args IH] using stree_ind'.
+  intros Hwf n. pose proof Hwf as Hwf0.
+  cbn [wf_tree] in Hwf. apply andb_prop in Hwf. destruct Hwf as [Hwf Hall].
+  apply andb_prop in Hwf. destruct Hwf as [Hs Hn]. apply Nat.eqb_eq in Hn.
+  destruct s; try (rewrite tr_tree_node; destruct (tr_trees args n) as [targs n']; reflexivity).
+  - (* SConst *) cbn [wf_sym] in Hs. assert (Hv : 0 <= v < 2 ^ 256) by lia.
+    rewrite tr_tree_node. destruct (tr_trees args n) as [targs n']. cbn [tr_node fst].
+    rewrite (make_const_val v Hv). cbn [as_u64 lit64]. cbv zeta. rewrite (Z.mod_small v) by exact Hv.
+    reflexivity.
+  - (* SExp *) cbn [children] in Hn.
+    destruct args as [|x [|e [|? ?]]]; cbn [length] in Hn; try discriminate Hn.
+    inversion IH as [|? ? _ IH2]; subst. inversion IH2 as [|? ? He _]; subst.
+    cbn [forallb] in Hall. apply andb_prop in Hall. destruct Hall as [Wx Wes].
+    apply andb_prop in Wes. destruct Wes as [We _].
+    rewrite tr_tree_node, tr_trees_cons.
+    destruct (tr_tree x n) as [tx n1]. rewrite tr_trees_cons.
+    pose proof (He We n1) as Le. pose proof (tr_tree_bv256 e We n1) as Be.
+    destruct (tr_tree e n1) as [te n2]. cbn [tr_trees fst] in *.
+    cbn [tr_node nth lit64]. rewrite <- Le.
+    destruct (as_u64 te) as [k|] eqn:Ek; [|reflexivity].
+    destruct (as_u64_spec dummy_interp te k Be Ek) as [Rk _].
+    destruct (Z.eq_dec k 0) as [->|Nz].
+    + cbn [fst]. unfold t_exp_lit. rewrite exp_loop_zero. reflexivity.
+    + cbn [fst]. unfold t_exp_lit. rewrite exp_loop_not_lit by (change (Z.of_nat 64) with 64; lia).
+      destruct k; [contradiction Nz; reflexivity|reflexivity|reflexivity].
+  - (* SGetPc *) cbn [wf_sym] in Hs.
+    rewrite tr_tree_node. destruct (tr_trees args n) as [targs n']. cbn [tr_node fst c256 as_u64 lit64].
+    cbv zeta. assert (65535 < 2 ^ 64) by reflexivity. assert (2 ^ 64 < 2 ^ 256) by reflexivity.
+    rewrite (Z.mod_small pc) by lia. reflexivity.
+Qed.
+
+Lemma exp_lit_flag : forall args n, forallb wf_tree args = true -> length args = 2%nat ->
+  exp_is_literal args =
+  match as_u64 (nth 1 (fst (tr_trees args n)) (c256 0)) with Some _ => true | None => false end.
+Proof.
+  intros args n Hall Hn.
+  destruct args as [|x [|e [|? ?]]]; cbn [length] in Hn; try discriminate Hn.
+  cbn [forallb] in Hall. apply andb_prop in Hall. destruct Hall as [_ Wes].
+  apply andb_prop in Wes. destruct Wes as [We _].
+  rewrite tr_trees_cons. destruct (tr_tree x n) as [tx n1]. rewrite tr_trees_cons.
+  pose proof (tr_tree_lit64 e We n1) as Le. destruct (tr_tree e n1) as [te n2].
+  cbn [tr_trees fst nth exp_is_literal] in *. rewrite Le. reflexivity.
+Qed.
+
+Lemma node_sound : forall M E s targs n lit,
+  agrees M E -> wf_sym s = true -> length targs = children s -> Forall bv256 targs ->
+  (s = SExp -> lit = match as_u64 (nth 1 targs (c256 0)) with Some _ => true | None => false end) ->
+  bv_eval M (fst (tr_node s targs n)) = fst (eval_node E s lit (map (bv_eval M) targs) n) /\
+  snd (tr_node s targs n) = snd (eval_node E s lit (map (bv_eval M) targs) n).
+Proof.
+  intros M E s targs n lit (Av & Ae & Af & Ac & Ab) Hs Hlen Hargs Hlit.
   destruct (pure_sym s) eqn:Hp.
-  - destruct (tr_op_correct M s targs n Hp Hlen Hargs (fun _ => Ap)) as [Hn Hv].
+  - destruct (tr_op_correct M s targs n Hp Hlen Hargs) as [Hn Hv].
     rewrite Hn, Hv. destruct s; try discriminate Hp; split; reflexivity.
   - destruct s; try discriminate Hp; cbn [tr_node eval_node fst snd read_sym env_sym];
       try (split; [|reflexivity]);
@@ -877,6 +1037,11 @@ Proof.
       assert (Hv : 0 <= v < 2 ^ 256) by lia.
       rewrite (proj2 (make_const_correct M v Hv)). symmetry. apply wrap_word. exact Hv.
     + (* SVar *) cbn [wf_sym] in Hs. cbn [bv_eval]. apply Av. lia.
+    + (* SExp *) rewrite (Hlit eq_refl). explode_args targs Hlen. inv_forall. cbn [nth map].
+      destruct (as_u64 y) as [e|] eqn:Ey; cbn [fst snd].
+      * destruct (as_u64_spec M y e ltac:(assumption) Ey) as [Re Ve]. rewrite Ve.
+        split; [|reflexivity]. apply tr_exp_lit_correct; assumption.
+      * split; [|reflexivity]. cbn [bv_eval]. apply Af.
     + (* SCallDataLoad *) explode_args targs Hlen. cbn [nth map]. unfold t_calldataload. cbn [bv_eval]. apply Ac.
     + (* SBlockHash *) explode_args targs Hlen. cbn [nth map]. unfold t_blockhash. cbn [bv_eval]. apply Ab.
     + (* SGetPc *) reflexivity.
@@ -888,7 +1053,8 @@ Theorem tr_sound_gen : forall M E, agrees M E -> forall t, wf_tree t = true -> f
   snd (tr_tree t n) = snd (eval_tree E t n).
 Proof.
   intros M E HA. induction t as [s args IH] using stree_ind'.
-  intros Hwf n. cbn [wf_tree] in Hwf. apply andb_prop in Hwf. destruct Hwf as [Hwf Hall].
+  intros Hwf n. pose proof (tr_tree_bv256 _ Hwf n) as Bt. split; [exact Bt|]. clear Bt.
+  cbn [wf_tree] in Hwf. apply andb_prop in Hwf. destruct Hwf as [Hwf Hall].
   apply andb_prop in Hwf. destruct Hwf as [Hs Hn]. apply Nat.eqb_eq in Hn.
   assert (L : forall n,
             Forall bv256 (fst (tr_trees args n)) /\
@@ -906,11 +1072,13 @@ Proof.
       destruct (tr_trees xs n1) as [tr n2]. destruct (eval_trees E xs n1) as [vr m2].
       cbn [fst snd map] in *. subst. auto. }
   rewrite tr_tree_node, eval_tree_node.
+  assert (Hflag : s = SExp -> exp_is_literal args =
+            match as_u64 (nth 1 (fst (tr_trees args n)) (c256 0)) with Some _ => true | None => false end).
+  { intros ->. apply exp_lit_flag; [exact Hall|exact Hn]. }
   destruct (L n) as (B & V & N). pose proof (tr_trees_length args n) as Hl.
   destruct (tr_trees args n) as [targs n']. destruct (eval_trees E args n) as [vs m'].
   cbn [fst snd] in *. subst vs m'.
   assert (Hlen : length targs = children s) by lia.
-  split; [apply tr_node_bv256; assumption|].
   apply node_sound; assumption.
 Qed.
 
